@@ -109,7 +109,7 @@ def _get_active_realizations(
     objective_weights: NDArray[np.float64] | None = None,
     constraint_weights: NDArray[np.float64] | None = None,
 ) -> tuple[NDArray[np.bool_] | None, NDArray[np.bool_] | None]:
-    if objective_weights is None:
+    if objective_weights is None and constraint_weights is None:
         # Realization filters may assign a non-zero weight to any realization,
         # and rank them by their function values. Hence, all are needed:
         if _uses_realization_filters(config):
@@ -133,6 +133,20 @@ def _get_active_realizations(
             )
         )
         return active_objectives, active_constraints
+    # Functions that are not filtered use the configured realization weights:
+    if objective_weights is None:
+        objective_weights = np.broadcast_to(
+            config.realizations.weights,
+            (config.objectives.weights.size, config.realizations.weights.size),
+        )
+    if constraint_weights is None and config.nonlinear_constraints is not None:
+        constraint_weights = np.broadcast_to(
+            config.realizations.weights,
+            (
+                config.nonlinear_constraints.lower_bounds.size,
+                config.realizations.weights.size,
+            ),
+        )
     active_objectives = np.abs(objective_weights) > 0
     active_constraints = (
         None if constraint_weights is None else np.abs(constraint_weights) > 0
